@@ -65,9 +65,10 @@ def _is1(a):
 
 # ---------------------------------------------------------------------------------------------
 def mh(c, iface, nonfinite=None):
-    x = c.avec('x'); xi = c.avec('xi'); scale = c.real('scale', pos=True); u = c.next_uniform('u')
+    x = c.avec('x'); xi = c.avec('xi'); scale = c.real('scale', pos=True)
     tg = Target(c, nonfinite); F = tg._f
     xs = x + scale * xi
+    u = c.boundary_uniform('u', lambda: F(xs) - F(x))
     cache = F(x)
     if iface == 'exp':
         from cuqi.experimental.mcmc import MH
@@ -105,10 +106,11 @@ def _post(c, acc, x, xs, newx, caches, rule):
 # ---------------------------------------------------------------------------------------------
 def pcn_kernel(c, iface, nonfinite=None):
     """kernel contract w.r.t. the code's own mechanism: likelihood-only ratio (its equality with the MH ratio is pcn_reversible)"""
-    x = c.avec('x'); xi = c.avec('xi'); scale = c.real('scale', lo=0, hi=1); u = c.next_uniform('u')
+    x = c.avec('x'); xi = c.avec('xi'); scale = c.real('scale', lo=0, hi=1)
     tg = Target(c, nonfinite); L = tg._f
     like = types.SimpleNamespace(logd=tg.logd)
     m = c.avec('m')
+    u = c.boundary_uniform('u', lambda: L(m + np.sqrt(1 - scale * scale) * (x - m) + scale * (xi - m)) - L(x))
     prior = types.SimpleNamespace(sample=lambda n=1, **k: xi, mean=m)
     cache = L(x)
     if iface == 'exp':
@@ -194,16 +196,21 @@ def mala(c, iface, nonfinite=None):
     x = c.avec('x'); xi = c.next_normal('xi', None if c.sym else c.numdim); eps = c.real('eps', pos=True)
     tg = Target(c, nonfinite); F = tg._f; G = tg.g
     cache, gcache = F(x), G(x)
+    def _spec_rho():
+        ys = x + (eps / 2) * G(x) + np.sqrt(eps) * xi
+        lq = lambda y, xc: -((y - xc - (eps / 2) * G(xc)) @ (y - xc - (eps / 2) * G(xc))) / (2 * eps)
+        return F(ys) - F(x) + lq(x, ys) - lq(ys, x)
     if iface == 'exp':
-        u = c.next_uniform('u')
+        u = c.boundary_uniform('u', _spec_rho)
         from cuqi.experimental.mcmc import MALA
         s = MALA.__new__(MALA); s._target = tg; s.current_point = x; s.scale = eps
         s.current_target_logd = cache; s.current_target_grad = gcache
         acc = s.step(); newx, newl, newg = s.current_point, s.current_target_logd, s.current_target_grad
     else:
-        u = c.next_uniform('u')
+        u = c.boundary_uniform('u', _spec_rho)
         from cuqi.sampler import MALA
         s = MALA.__new__(MALA); s._target = tg; s.scale = eps; s.rng = None
+        if not c.sym: s._dim = len(x)
         newx, newl, newg, acc = s.single_update(x, cache, gcache)
     xs = tg.calls[0]
     c.eq('proposal_is_langevin_step', xs, x + (eps / 2) * G(x) + c.sqrt(eps) * xi)
@@ -282,6 +289,33 @@ def lemma_mh(c):
     c.eq('detailed_balance', p * q * a, pp * qq * ai)
 
 
+def integer_typed_state(c, iface, name):
+    """the kernel acts on the VALUES of the state: an initial point stored in an integer-typed array (np.array([0, 0])) gives the same
+    chain as the same point in a float array, from the same random stream (bounded stand-in: native runs of the real samplers)"""
+    import cuqi.experimental.mcmc as EX, cuqi.sampler as LG
+    from cuqi.distribution import Gaussian, JointDistribution
+    from cuqi.model import LinearModel
+    seed = int(c.real('seed', lo=0, hi=10 ** 6))
+    tgt = Gaussian(np.array([0.3, -0.2]), np.array([0.7, 1.3]), name='x')
+    def post():
+        x = Gaussian(np.zeros(2), 1.0, name='x'); y = Gaussian(LinearModel(np.array([[1.0, 0.5], [0.0, 1.0]])), 0.5, name='y')
+        return JointDistribution(x, y)(y=np.array([0.4, -0.3]))
+    def run(x0):
+        np.random.seed(seed)
+        if iface == 'exp':
+            mk = {'MH': lambda: EX.MH(tgt, scale=0.6, initial_point=x0), 'CWMH': lambda: EX.CWMH(tgt, scale=0.6, initial_point=x0),
+                  'PCN': lambda: EX.PCN(post(), scale=0.4, initial_point=x0), 'MALA': lambda: EX.MALA(tgt, scale=0.4, initial_point=x0),
+                  'ULA': lambda: EX.ULA(tgt, scale=0.05, initial_point=x0), 'NUTS': lambda: EX.NUTS(tgt, max_depth=3, initial_point=x0)}[name]
+            s = mk(); s.sample(8); return np.array(s._samples, dtype=float)
+        mk = {'MH': lambda: LG.MH(tgt, scale=0.6, x0=x0), 'CWMH': lambda: LG.CWMH(tgt, scale=0.6, x0=x0), 'pCN': lambda: LG.pCN(post(), scale=0.4, x0=x0),
+              'MALA': lambda: LG.MALA(tgt, scale=0.4, x0=x0), 'ULA': lambda: LG.ULA(tgt, scale=0.05, x0=x0), 'NUTS': lambda: LG.NUTS(tgt, max_depth=3, x0=x0)}[name]
+        return np.array((mk().sample(8, 4) if name == 'NUTS' else mk().sample(8)).samples.T, dtype=float)
+    import io, contextlib
+    with contextlib.redirect_stdout(io.StringIO()), contextlib.redirect_stderr(io.StringIO()):
+        a = run(np.array([1, -1])); b = run(np.array([1.0, -1.0]))
+    c.eq('chain_from_integer_typed_initial_point_equals_chain_from_float_typed_one', a, b, tol=1e-12)
+
+
 def jobs(tier):
     J = []
     NF = [None, float('nan'), float('-inf')]
@@ -291,16 +325,16 @@ def jobs(tier):
         for nf in NF:
             nfl = 'finite' if nf is None else str(nf)
             J.append(Job(f'{tag}.MH:kernel:{nfl}', lambda c, i=iface, nf=nf: mh(c, i, nf), 'Pinf',
-                         fn(mod + '._mh', 'MH.step' if iface == 'exp' else 'MH.single_update')))
+                         fn(mod + '._mh', 'MH.step' if iface == 'exp' else 'MH.single_update'), nnum=24 if tier == 'quick' else 200))
             J.append(Job(f'{tag}.pCN:kernel:{nfl}', lambda c, i=iface, nf=nf: pcn_kernel(c, i, nf), 'Pinf',
-                         fn(mod + '._pcn', 'PCN.step' if iface == 'exp' else 'pCN.single_update')))
+                         fn(mod + '._pcn', 'PCN.step' if iface == 'exp' else 'pCN.single_update'), nnum=24 if tier == 'quick' else 200))
             J.append(Job(f'{tag}.MALA:kernel:{nfl}', lambda c, i=iface, nf=nf: mala(c, i, nf), 'Pinf',
                          fn(mod + '._langevin_algorithm', *(('MALA._accept_or_reject', 'MALA._log_proposal', 'ULA.step') if iface == 'exp' else ('MALA.single_update', 'MALA.log_proposal'))),
-                         extra=_mala_extra, num=False))
+                         extra=_mala_extra, numdim=3, nnum=24 if tier == 'quick' else 200))
         for pk in ('Normal', 'Gaussian'):
             for n in ([1] if tier == 'quick' else [1, 2]):
                 J.append(Job(f'{tag}.pCN:prior_reversible:{pk}:n={n}', lambda c, i=iface, pk=pk, n=n: pcn_reversible(c, i, n, pk), 'Pbox',
-                             fn(mod + '._pcn', 'PCN.step' if iface == 'exp' else 'pCN.single_update')))
+                             fn(mod + '._pcn', 'PCN.step' if iface == 'exp' else 'pCN.single_update'), nnum=24 if tier == 'quick' else 200))
         for n in ([1, 2] if tier == 'quick' else [1, 2, 3]):
             for dp in (False, True):
                 J.append(Job(f'{tag}.CWMH:kernel:n={n}:{"default" if dp else "callable"}_proposal', lambda c, i=iface, n=n, dp=dp: cwmh(c, i, n, None, dp), 'Pbox',
@@ -309,5 +343,9 @@ def jobs(tier):
                 for j0 in range(n):
                     J.append(Job(f'{tag}.CWMH:kernel:n={n}:{val}_at_component_{j0}', lambda c, i=iface, n=n, j0=j0, val=val: cwmh(c, i, n, (j0, val)), 'Pbox',
                                  fn(mod + '._cwmh', 'CWMH.step' if iface == 'exp' else 'CWMH.single_update'), maxpaths=2048))
+    for iface, names in (('exp', ('MH', 'CWMH', 'PCN', 'MALA', 'ULA', 'NUTS')), ('leg', ('MH', 'CWMH', 'pCN', 'MALA', 'ULA', 'NUTS'))):
+        for name in names:
+            J.append(Job(f'{"experimental" if iface == "exp" else "legacy"}.{name}:integer_typed_initial_point', lambda c, i=iface, nm=name: integer_typed_state(c, i, nm), 'B',
+                         [f'{EXP if iface == "exp" else LEG}._{"cwmh" if name == "CWMH" else "mh"}:{name}.{"step" if iface == "exp" else "single_update"}'] if name in ('MH', 'CWMH') else [], nnum=2))
     J.append(Job('lemma:L-MH:detailed_balance', lemma_mh, 'Pinf', []))
     return J
